@@ -202,7 +202,10 @@ class TransformedTargetForecaster(
         self.check_is_fitted()
         zt = check_series(Z, enforce_univariate=True)
         for _, _, transformer in self._iter_transformers(reverse=True):
-            zt = transformer.inverse_transform(zt, X)
+            # as in `_predict`: steps that are not meant to be inverted (e.g.
+            # Imputer, HampelFilter) have no inverse_transform and are skipped
+            if not _has_tag(transformer, "skip-inverse-transform"):
+                zt = transformer.inverse_transform(zt, X)
         return zt
 
     def get_params(self, deep=True):
